@@ -5,6 +5,7 @@ import (
 	"fmt"
 	"io"
 	"reflect"
+	"sort"
 	"strings"
 	"testing/iotest"
 
@@ -453,7 +454,9 @@ func (in *c16Instance) apply(op *C16Op, first bool) (res c16Result) {
 	return
 }
 
-func c16SameDoc(format string, a, b []byte) bool {
+func c16SameDoc(format string, a, b []byte) bool { return c16SameDocR(format, a, b, false) }
+
+func c16SameDocR(format string, a, b []byte, recursion bool) bool {
 	if bytes.Equal(a, b) {
 		return true
 	}
@@ -486,7 +489,37 @@ func c16SameDoc(format string, a, b []byte) bool {
 	}
 	sortAllMaps(ta)
 	sortAllMaps(tb)
-	return canon.Diff(ta, tb, canon.EqOpts{FloatArrayNaNKind: true}) == ""
+	if canon.Diff(ta, tb, canon.EqOpts{FloatArrayNaNKind: true}) == "" {
+		return true
+	}
+	if !recursion {
+		return false
+	}
+	// With recursion support the marker goes on whichever occurrence of a shared object the marshaler meets
+	// first, and Go's map iteration order decides that: two runs over the same value may put "&0:" and "$0" the
+	// other way round. Still required: the same set of marker identifiers (numbering starts afresh with every
+	// document) and, references replaced by the objects they stand for, the same tree.
+	ids := func(evs []ev.Event) string {
+		var out []string
+		for _, e := range evs {
+			if e.K == ev.Marker {
+				out = append(out, string(e.Bs))
+			}
+		}
+		sort.Strings(out)
+		return strings.Join(out, ",")
+	}
+	if ids(ea) != ids(eb) {
+		return false
+	}
+	ra, oka := canon.ResolveRefs(ta, 64)
+	rb, okb := canon.ResolveRefs(tb, 64)
+	if !oka || !okb {
+		return false // cyclic: the named cyclic values have one possible marker placement, compared above
+	}
+	sortAllMaps(ra)
+	sortAllMaps(rb)
+	return canon.Diff(ra, rb, canon.EqOpts{FloatArrayNaNKind: true}) == ""
 }
 
 func init() {
@@ -538,7 +571,7 @@ func init() {
 				if fresh.errNil {
 					switch {
 					case reused.m != nil:
-						if !c16SameDoc(reused.format(), fresh.out, again.out) {
+						if !c16SameDocR(reused.format(), fresh.out, again.out, c.Recursion) {
 							return fmt.Errorf("%s: reused instance wrote %s, fresh instance %s", where, docdump(reused.format(), again.out), docdump(reused.format(), fresh.out))
 						}
 					case reused.e != nil:
